@@ -330,42 +330,83 @@ def _attrs_used(stmts, var):
 
 
 def fallback_scan(ctx, R, rid):
-    """the linear lookup used when no fast lookup is registered: one scan per (parent kind, child kind),
-    never stopping early, comparing value with child[key]"""
+    """the linear lookup used when no fast lookup is registered: one scan per (parent kind, child kind), never stopping early,
+    comparing value with child[key].  Path enumeration with facts, so the shape of the dispatch (nested ifs, guard clauses, a
+    collection picked first and scanned once, a `next(...)` over a generator, a private helper) does not matter."""
+    from ..paths import stmt_paths, expand
+    from ..inline import inlined_view
     P = ctx.P
-    cells = 0
-    # global_service.lookup fallback
-    gs = P.func(GS, "lookup")
+    gs0 = P.func(GS, "lookup")
+    gs = inlined_view(P, gs0)
     want = {("Netlist", "Library", "libraries"), ("Library", "Definition", "definitions"), ("Definition", "Port", "ports"),
             ("Definition", "Cable", "cables"), ("Definition", "Instance", "children")}
     got = set()
-    for n in walk_local(gs.node):
-        if isinstance(n, ast.If) and isinstance(n.test, ast.Call) and norm(n.test.func) == "isinstance" and norm(n.test.args[0]) == "parent":
-            pc = norm(n.test.args[1]).split(".")[-1]
-            for m in [x for st in n.body for x in ast.walk(st)]:
-                if isinstance(m, ast.If) and isinstance(m.test, ast.Compare) and norm(m.test.left) == "element_type" and isinstance(m.test.ops[0], (ast.Is, ast.Eq)):
-                    et = norm(m.test.comparators[0]).split(".")[-1]
-                    for lp in [x for st in m.body for x in ast.walk(st)]:
-                        if isinstance(lp, ast.For) and isinstance(lp.iter, ast.Attribute) and norm(lp.iter.value) == "parent":
-                            got.add((pc, et, lp.iter.attr))
-                            v = norm(lp.target)
-                            for x in ast.walk(lp):
-                                if isinstance(x, ast.Break):
-                                    R.bad(rid, "%s|%s break" % (gs.key, lp.iter.attr), gs.loc(x),
-                                          "the fallback scan over parent.%s stops at a `break`: a match after that child is never found, so results depend on whether the fast lookup is registered" % lp.iter.attr)
-                                if isinstance(x, ast.Return) and (x.value is None or norm(x.value) != v):
-                                    R.bad(rid, "%s|%s early return" % (gs.key, lp.iter.attr), gs.loc(x),
-                                          "the fallback scan over parent.%s returns `%s` from inside the loop instead of the matching child" % (lp.iter.attr, norm(x.value)))
-                                if isinstance(x, ast.Compare) and len(x.ops) == 1 and isinstance(x.ops[0], (ast.In, ast.NotIn)) and norm(x.left) == "key" \
-                                        and norm(x.comparators[0]) not in (v, v + ".data", v + "._data"):
-                                    R.bad(rid, "%s|%s key-guard" % (gs.key, lp.iter.attr), gs.loc(x),
-                                          "the fallback scan over parent.%s tests `%s` instead of whether the child `%s` carries the key: children are "
-                                          "skipped (or a KeyError is raised) depending on the parent's data, so exact-name queries disagree with wildcard ones"
-                                          % (lp.iter.attr, norm(x), v))
-                                if isinstance(x, ast.Compare) and len(x.ops) == 1 and isinstance(x.ops[0], ast.Eq) and "value" in (norm(x.left), norm(x.comparators[0])):
-                                    other = norm(x.comparators[0]) if norm(x.left) == "value" else norm(x.left)
-                                    if other != "%s[key]" % v:
-                                        R.bad(rid, "%s|%s compare" % (gs.key, lp.iter.attr), gs.loc(x), "the fallback scan compares value with `%s`, not with %s[key]" % (other, v))
+    scans = []  # (node, collection text, element variable, [conditions], facts)
+
+    def kinds(facts):
+        pk = {m.group(1).split(".")[-1] for a in facts for m in [re.match(r"isinstance\(parent,(.*)\)$", a)] if m}
+        et = {m.group(2).split(".")[-1] for a in facts for m in [re.match(r"(is|eq)\(element_type,(.*)\)$", a)] if m} | \
+             {m.group(2).split(".")[-1] for a in facts for m in [re.match(r"(is|eq)\((.*),element_type\)$", a)] if m}
+        return pk, et
+
+    def probe(st, facts, defs=None):
+        if isinstance(st, ast.For) and defs is not None:
+            coll = expand(norm(st.iter), defs)
+            scans.append((st, coll, norm(st.target), None, facts))
+    paths = list(stmt_paths(gs.node.body, frozenset(), {}, None, probe, opaque_loops=True))
+    if any(oc is None for oc, fa, df in paths):
+        raise AnalysisError("the fallback lookup of global_service is outside the rule's template (a statement kind it does not model)")
+    for oc, fa, df in paths:
+        if isinstance(oc, tuple) and oc[0] == "return" and oc[1] is not None:
+            e = oc[1]
+            if isinstance(e, ast.Call) and norm(e.func) == "next" and e.args and isinstance(e.args[0], ast.GeneratorExp) and len(e.args[0].generators) == 1:
+                g = e.args[0].generators[0]
+                scans.append((e, expand(norm(g.iter), df), norm(g.target), (e.args[0].elt, list(g.ifs)), fa))
+    for node, coll, v, gen, facts in scans:
+        if not coll.startswith("parent."):
+            continue
+        attr = coll[len("parent."):]
+        pk, et = kinds(facts)
+        if len(pk) != 1 or len(et) != 1:
+            R.bad(rid, "%s|%s dispatch" % (gs.key, attr), gs.loc(node),
+                  "the fallback scan over parent.%s is not reached under exactly one parent kind and one element type (parent: %s, element type: %s)"
+                  % (attr, sorted(pk) or "?", sorted(et) or "?"))
+            continue
+        got.add((sorted(pk)[0], sorted(et)[0], attr))
+        conds = []
+        if gen is not None:
+            elt, ifs = gen
+            if norm(elt) != v:
+                R.bad(rid, "%s|%s early return" % (gs.key, attr), gs.loc(node), "the fallback scan over parent.%s returns `%s` instead of the matching child" % (attr, norm(elt)))
+            for c in ifs:
+                conds.extend(c.values if isinstance(c, ast.BoolOp) and isinstance(c.op, ast.And) else [c])
+        else:
+            for x in ast.walk(node):
+                if isinstance(x, ast.Break):
+                    R.bad(rid, "%s|%s break" % (gs.key, attr), gs.loc(x),
+                          "the fallback scan over parent.%s stops at a `break`: a match after that child is never found, so results depend on whether the fast lookup is registered" % attr)
+                if isinstance(x, ast.Return) and (x.value is None or norm(x.value) != v):
+                    R.bad(rid, "%s|%s early return" % (gs.key, attr), gs.loc(x),
+                          "the fallback scan over parent.%s returns `%s` from inside the loop instead of the matching child" % (attr, norm(x.value) if x.value is not None else "None"))
+                if isinstance(x, ast.Compare):
+                    conds.append(x)
+        compared = False
+        for x in conds:
+            for y in ast.walk(x):
+                if not (isinstance(y, ast.Compare) and len(y.ops) == 1):
+                    continue
+                if isinstance(y.ops[0], (ast.In, ast.NotIn)) and norm(y.left) == "key" and norm(y.comparators[0]) not in (v, v + ".data", v + "._data"):
+                    R.bad(rid, "%s|%s key-guard" % (gs.key, attr), gs.loc(node),
+                          "the fallback scan over parent.%s tests `%s` instead of whether the child `%s` carries the key: children are "
+                          "skipped (or a KeyError is raised) depending on the parent's data, so exact-name queries disagree with wildcard ones" % (attr, norm(y), v))
+                if isinstance(y.ops[0], ast.Eq) and "value" in (norm(y.left), norm(y.comparators[0])):
+                    compared = True
+                    other = norm(y.comparators[0]) if norm(y.left) == "value" else norm(y.left)
+                    if other != "%s[key]" % v:
+                        R.bad(rid, "%s|%s compare" % (gs.key, attr), gs.loc(node), "the fallback scan compares value with `%s`, not with %s[key]" % (other, v))
+        if not compared:
+            R.bad(rid, "%s|%s compare" % (gs.key, attr), gs.loc(node), "the fallback scan over parent.%s never compares value with %s[key]" % (attr, v))
+    cells = 0
     for t in sorted(want):
         cells += 1
         if t in got:
